@@ -637,14 +637,17 @@ pub unsafe extern "C" fn SFileHasFile(archive: HANDLE, filename: *const c_char) 
         Err(_) => return false,
     };
 
-    let archives = ARCHIVES.lock().unwrap();
-    if let Some(archive_handle) = archives.get(&archive_id) {
-        matches!(
-            archive_handle.archive().find_file(filename_str),
-            Ok(Some(_))
-        )
-    } else {
-        false
+    // A writable handle must answer from its current (modified) state, like
+    // SFileOpenFileEx does, not from the snapshot taken when it was opened
+    let mut archives = ARCHIVES.lock().unwrap();
+    match archives.get_mut(&archive_id) {
+        Some(ArchiveHandle::ReadOnly { archive, .. }) => {
+            matches!(archive.find_file(filename_str), Ok(Some(_)))
+        }
+        Some(ArchiveHandle::Mutable { archive, .. }) => {
+            matches!(archive.find_file(filename_str), Ok(Some(_)))
+        }
+        None => false,
     }
 }
 
